@@ -1748,6 +1748,123 @@ def variants_of(template_text):
 
 
 PROBE_MODE = False
+INLINE_HELPERS = ()   # names of single-expression helper functions to inline (rule R16), set per retry
+
+
+def _split_args(s):
+    out, cur, d = [], "", 0
+    for ch in s:
+        if ch in "([{<":
+            d += 1
+        elif ch in ")]}>":
+            d -= 1
+        if ch == "," and d == 0:
+            out.append(cur)
+            cur = ""
+        else:
+            cur += ch
+    if cur.strip():
+        out.append(cur)
+    return [x.strip() for x in out]
+
+
+def inline_helpers(unit_text, names, paths, stats):
+    """R16: a helper function that the extracted text calls but that lies outside the extracted items (a refactoring
+    moved a few lines into `fn helper(&self) -> T { <one expression> }`) is INLINED at its call sites: the call
+    `recv.helper(args)` / `helper(args)` is replaced by the helper's body — the same text that runs — with `self`
+    and the parameters replaced by the receiver / argument expressions.  Only single-expression bodies (no `;`,
+    no `return`) and only receivers / arguments that are plain paths (evaluating them twice changes nothing)."""
+    for nm in names:
+        body = params = None
+        # a name that is defined more than once in the searched files (e.g. once per flavour of a twin type) cannot be
+        # resolved without types: it is not inlined
+        n_defs = 0
+        for pth in paths:
+            try:
+                n_defs += len(re.findall(r"\bfn\s+%s\b" % re.escape(nm), mask_trivia(source(pth))))
+            except ExtractError:
+                pass
+        if n_defs != 1:
+            continue
+        for pth in paths:
+            try:
+                src = source(pth)
+            except ExtractError:
+                continue
+            msk = mask_trivia(src)
+            for dm in re.finditer(r"\bfn\s+%s\s*(?:<[^>()]*>)?\s*\(" % re.escape(nm), msk):
+                pe = match_close(src, dm.end() - 1, "(", ")")
+                ob = msk.find("{", pe)
+                sc = msk.find(";", pe)
+                if ob < 0 or (0 <= sc < ob):
+                    continue
+                cb = match_close(src, ob)
+                b_ = drop_attrs_and_docs(src[ob + 1:cb]).strip()
+                bm_ = mask_trivia(b_)
+                if "$" in b_ or re.search(r"\breturn\b", bm_):
+                    continue
+                # single expression: no `;` at depth 0
+                d_ = 0
+                single = True
+                for ch in bm_:
+                    if ch in "([{":
+                        d_ += 1
+                    elif ch in ")]}":
+                        d_ -= 1
+                    elif ch == ";" and d_ == 0:
+                        single = False
+                        break
+                if not single:
+                    continue
+                body, params = b_, _split_args(src[dm.end():pe])
+                break
+            if body is not None:
+                break
+        if body is None:
+            continue
+        has_self = bool(params) and re.match(r"^(&\s*(mut\s+)?)?(mut\s+)?self$", params[0])
+        pnames = []
+        for prm in (params[1:] if has_self else params):
+            pm_ = re.match(r"^(?:mut\s+)?(\w+)\s*:", prm)
+            if not pm_:
+                pnames = None
+                break
+            pnames.append(pm_.group(1))
+        if pnames is None:
+            continue
+        for _ in range(12):
+            msk = mask_trivia(unit_text)
+            cm = None
+            for cm_ in re.finditer((r"\.\s*%s\s*(?:::<[^>()]*>)?\s*\(" if has_self else r"(?<![\w.:])(?:\w+\s*::\s*)?%s\s*(?:::<[^>()]*>)?\s*\(") % re.escape(nm), msk):
+                # not the definition itself
+                if re.search(r"\bfn\s*$", msk[:cm_.start()]):
+                    continue
+                cm = cm_
+                break
+            if cm is None:
+                break
+            start_ = cm.start()
+            recv_ = ""
+            if has_self:
+                start_ = _receiver_start(unit_text, cm.start())
+                recv_ = unit_text[start_:cm.start()].strip()
+                # a receiver that is not a plain path is evaluated once only if the body mentions `self` once
+                n_self = len(re.findall(r"(?<![\w.])self\b", mask_trivia(body)))
+                if not recv_ or (not re.match(r"^[\w.]+$", recv_) and n_self != 1):
+                    break
+            ae = match_close(unit_text, cm.end() - 1, "(", ")")
+            args = _split_args(unit_text[cm.end():ae])
+            if len(args) != len(pnames) or any(not re.match(r"^[&*\s\w.]+$", a) for a in args):
+                break
+            b2 = body
+            if has_self:
+                b2 = re.sub(r"(?<![\w.])self\b", recv_.replace("\\", "\\\\"), b2)
+            for pn, av in zip(pnames, args):
+                av2 = re.sub(r"^&\s*(mut\s+)?", "", av.strip())
+                b2 = re.sub(r"(?<![\w.])%s\b" % re.escape(pn), av2, b2)
+            unit_text = unit_text[:start_] + "(" + b2 + ")" + unit_text[ae + 1:]
+            stats["R16"] = stats.get("R16", 0) + 1
+    return unit_text
 
 
 def generate(template_path, variant, canary=False, probe=False):
@@ -2036,6 +2153,13 @@ def generate_(template_path, variant, canary=False):
             continue
         raise ExtractError("%s:%d: unknown directive %s" % (template_path, i + 1, d))
     unit_text = "\n".join(out)
+    if INLINE_HELPERS:
+        paths_ = []
+        for s_ in stats["sources"]:
+            pm_ = re.match(r"\w+\s+(\S+?\.rs)", s_)
+            if pm_ and pm_.group(1) not in paths_:
+                paths_.append(pm_.group(1))
+        unit_text = inline_helpers(unit_text, INLINE_HELPERS, paths_, stats)
     # R15: file-level `const NAME: T = literal;` items of the source files that the extracted text refers to
     # are copied along (a body that starts using a named constant still types)
     consts = []
